@@ -310,6 +310,9 @@ HANDBUILT: tuple[tuple[bytes, list[tuple[bytes, bytes]], typing.Any], ...] = (
     (b"GET", [(b"Host", b"example.com"), (b"Bad Name", b"v")], None),
     (b"GET", [(b"Host", b"example.com"), (b"X-V", b"line\r\nbreak")], None),
     (b"BAD METHOD", [(b"Host", b"example.com")], None),
+    (b"POST", [(b"Host", b"example.com"), (b"Content-Length", b"3")], "ITER"),          # body as a (sync / async) generator
+    (b"POST", [(b"Host", b"example.com"), (b"Content-Length", b"70000")], b"x" * 70000),  # larger than any internal chunk size
+    (b"POST", [(b"Host", b"example.com"), (b"Transfer-Encoding", b"chunked")], b"y" * 70000),
 )
 
 
@@ -318,6 +321,15 @@ def _handbuilt_run(is_async: bool, ct: str, idx: int) -> tuple:
     method, headers, content = HANDBUILT[idx]
     outs: list[typing.Any] = []
     for m, h, c in ((method, headers, content), (b"GET", [(b"Host", b"example.com")], None)):
+        if isinstance(c, str) and c == "ITER":
+            if is_async:
+                async def agen() -> typing.AsyncIterator[bytes]:
+                    for part in (b"a", b"bc"):
+                        yield part
+
+                c = agen()
+            else:
+                c = iter((b"a", b"bc"))
         req = httpcore.Request(m, su.url("hb"), headers=list(h), content=c, extensions={"timeout": {"pool": 0, "read": 5}})
         o = su.api.handle(su.pool, req)
         outs.append(o.kind())
@@ -335,7 +347,7 @@ def _handbuilt_run(is_async: bool, ct: str, idx: int) -> tuple:
     example=dict(i=1),
     require=("compared",),
     timeout={"quick": 200, "thorough": 300},
-    symbolic="which hand-built httpcore.Request is passed to the pool's handle_request / handle_async_request (7: complete, without Host, body without framing header, with Content-Length, illegal header name, illegal header value, illegal method), followed by an ordinary request",
+    symbolic="(10 requests, the last three: generator body with Content-Length, 70,000-byte bodies with Content-Length / chunked) which hand-built httpcore.Request is passed to the pool's handle_request / handle_async_request (7: complete, without Host, body without framing header, with Content-Length, illegal header name, illegal header value, illegal method), followed by an ordinary request",
     bounds="7 requests x 4 connection types (HTTP/1.1, HTTP/2 by ALPN and by prior knowledge, tunnel)",
     outside="other malformed requests",
     stubs=("as C18.product",),
@@ -343,10 +355,10 @@ def _handbuilt_run(is_async: bool, ct: str, idx: int) -> tuple:
 )
 def handbuilt_requests(i: int) -> None:
     """
-    pre: 0 <= i <= 6
+    pre: 0 <= i <= 9
     post: _
     """
-    k = ladder(i, 0, 6)
+    k = ladder(i, 0, 9)
     with concrete(k):
         ct = shard("ct", "h11")
         rs = _handbuilt_run(False, ct, k)
@@ -358,7 +370,7 @@ def handbuilt_requests(i: int) -> None:
         P.check(rs[0] == ra[0], "same-bytes-and-operations-on-the-wire", lambda: f"{sig}:ledger:{_first_diff(rs[0], ra[0])}", prop="C18")
         # C15: an invalid request from the caller gives LocalProtocolError - never a bare IndexError/KeyError/...
         what = {0: "complete", 1: "no-host", 2: "body-without-framing", 3: "with-content-length", 4: "illegal-header-name",
-                5: "illegal-header-value", 6: "illegal-method"}[k]
+                5: "illegal-header-value", 6: "illegal-method", 7: "generator-body", 8: "large-body", 9: "large-chunked-body"}[k]
         fam = "h2" if ct in ("h2", "h2prior") else ct
         for fl, r in (("sync", rs), ("async", ra)):
             first = r[1][0]
